@@ -12,7 +12,7 @@ import schemes_oracles as so
 
 MODULE = "SSEPyVerif.Props.C07"
 LEANCHECK = ["SSEPyVerif.Props.C07"]
-TRUSTED = sk.TRUSTED + ["purity is true by construction in a functional model; the assurance that the CODE mutates nothing comes from the correspondence and the before/after comparison on the real objects"]
+TRUSTED = sk.TRUSTED + ["purity is true by construction in a functional model; the assurance that the CODE mutates nothing comes from the mutation-site translator (harness/translate/mutation_sites.py: an unverified, conservative, flow-insensitive alias analysis with declared shapes for the interface's arguments - database: dict of lists of bytes, configuration dict: scalars, keys/tokens: objects of bytes; the primitives of the configuration object are taken to return new immutable values; dict keys are taken to be immutable), from the correspondence and from the before/after comparison on the real objects"]
 ASSUMPTIONS = []
 
 
